@@ -25,11 +25,11 @@ func init() {
 }
 
 func init() {
-	props["C15"] = propCfg{Level: "exploration", QuickS: 40, ThoroughS: 600,
+	props["C15"] = propCfg{Level: "exploration", QuickS: 40, ThoroughS: 600, RaceEngines: []string{"concurrent-cache", "router"},
 		Components: []string{"mocrelay.EventCache (instrumented: a yield before every statement, simulated RWMutex)", "mocrelay.CacheHandler + SimpleHandler sessions (session mode)", "igrmk/treemap"},
 		Stubs:      []string{"clients (2-4 actors calling Add/Find/Len directly, or scripted sessions)", "goroutine scheduler (cooperative, seeded)"},
 		Rule:       "rapid draws capacity 1-4, 2-8 related events with unique created_at (so the sequential specification is a function), 2-4 clients with up to 16 (quick) / 24 (thorough) operations in total (Add, Find with listings and selective filters, Len), direct or through CacheHandler sessions, and a schedule with preemption inside Add/Find. Each history is checked for linearizability: first against the witness order of simulated-lock acquisitions, and when that does not explain the results, by porcupine over invoke/return stamps. Non-trivial: >= 2 insertions, >= 1 query, more context switches than 2x clients; distinct = distinct (case, schedule) hash.",
-		Assumptions: []string{"preemption at statement boundaries of the instrumented packages", "data races without effect at statement granularity are not observable by this check (no lockset/HB detector in the deciding path)", "porcupine Unknown (timeout) is counted, never reported"}}
+		Assumptions: []string{"preemption at statement boundaries of the instrumented packages", "data races are decided by Go's race detector on the serialised schedules of the race phase (direct-call cache clients and router sessions); the harness actors are excluded from instrumentation (go:norace)", "porcupine Unknown (timeout) is counted, never reported"}}
 }
 
 func init() {
